@@ -869,4 +869,36 @@ AlgPermInvariant(t, x) == AlgPermInvariantA(t, x, NoneV, AlgParse(t, x, NoneV))
 DevsAsDescribed(t, x)  == DevsAsDescribedA(t, x, AlgParse(t, x, NoneV))
 Idempotent(t, x)       == IdempotentA(t, NoneV, AlgParse(t, x, NoneV))
 DumpStable(t, x)       == DumpStableA(t, NoneV, AlgParse(t, x, NoneV))
+\* ---- Round 4 (C10): class specs reached through a CALLABLE type (Callable[..., Base], Callable[[int], Base], Optional[...]) ----
+\* Class specs are opaque for the Alg layer (Classes are C14's): a Namespace / dict is [k |-> "ns" | "dict", v |-> << <<key, value>>, ... >>].
+\* Ref: the config representation of a parsed class spec holds the SERIALISED form of every init arg -- an Enum member by its name, a
+\* tuple / set as a list (a set in no particular order: bag), a pathlib.Path ("pypath") / Path_fr / timedelta as the text str() gives --
+\* whichever type the spec was reached through (adapt_typehints :982-985 for Callable, :1054-1057 for a class type).
+RECURSIVE SerForm(_)
+SerForm(v) == CASE v.k = "ns"                -> LET ps == SelectSeq(v.v, LAMBDA p : p[2].k # "none")          \* dump(skip_none=True), the default: a key that is None is left out
+                                                IN DictV([n \in 1..Len(ps) |-> <<SerForm(ps[n][1]), SerForm(ps[n][2])>>])
+                [] v.k = "dict"              -> DictV([n \in 1..Len(v.v) |-> <<SerForm(v.v[n][1]), SerForm(v.v[n][2])>>])
+                [] v.k \in {"list", "tuple"} -> ListV([n \in 1..Len(v.v) |-> SerForm(v.v[n])])
+                [] v.k = "set"               -> LET s == SetAsSeq(v.v) IN BagV(BagOf([n \in 1..Len(s) |-> SerForm(s[n])]))
+                [] v.k = "enum"              -> StrV(v.v[2])
+                [] v.k \in {"pypath", "path"} -> StrV(v.v)
+                [] v.k = "reg"               -> IF v.v[1] \in DOMAIN RegDefs /\ v.v[2] \in DOMAIN RegDefs[v.v[1]].ser THEN RegWrite(v.v[1], v) ELSE AnyStrV
+                [] OTHER                     -> v
+\* a tree that a stock YAML / JSON loader can hold: nothing of Python is left in it
+RECURSIVE Serialised(_)
+Serialised(v) == CASE v.k \in {"none", "bool", "int", "float", "str"} -> TRUE
+                   [] v.k = "list" -> \A n \in 1..Len(v.v) : Serialised(v.v[n])
+                   [] v.k = "dict" -> \A n \in 1..Len(v.v) : v.v[n][1].k = "str" /\ Serialised(v.v[n][2])
+                   [] OTHER -> FALSE
+\* the class spec without the init arg `name` (Callable[[int], Base]: the first parameter is the caller's, skip_args = 1)
+DropArg(v, name) ==
+  IF v.k \notin {"ns", "dict"} THEN v
+  ELSE [v EXCEPT !.v = [n \in 1..Len(v.v) |->
+          IF v.v[n][1] = StrV("init_args") /\ v.v[n][2].k \in {"ns", "dict"}
+          THEN <<v.v[n][1], [v.v[n][2] EXCEPT !.v = SelectSeq(@, LAMBDA p : p[1] # StrV(name))]>> ELSE v.v[n]]]
+\* equality of opaque values, the order of the keys of a Namespace / dict aside
+RECURSIVE SpecEq(_, _)
+SpecEq(a, b) == a.k = b.k /\ CASE a.k \in {"ns", "dict"} -> Len(a.v) = Len(b.v) /\ \A n \in 1..Len(a.v) : \E m \in 1..Len(b.v) : a.v[n][1] = b.v[m][1] /\ SpecEq(a.v[n][2], b.v[m][2])
+                               [] a.k \in {"list", "tuple"} -> Len(a.v) = Len(b.v) /\ \A n \in 1..Len(a.v) : SpecEq(a.v[n], b.v[n])
+                               [] OTHER -> a = b
 =============================================================================
